@@ -191,11 +191,18 @@ def _load_benign(pid):
 
 
 def _judge_benign(args):
-    """A behaviour-preserving refactoring must leave the verdict unchanged: no additional violation, no analysis error."""
+    """A behaviour-preserving refactoring must leave the verdict unchanged: no additional violation, no analysis error
+    (except the refactorings listed in benign/UNDECIDED.json, which may end undecided -- exit 2 -- but never with a violation)."""
+    import json
+
     sid, verdict, info = _judge_seed(args)
     if verdict == "detected":
         return (sid, "false-alarm", info)
     if verdict == "analysis-error":
+        up = os.path.join(VERIF_DIR, "benign", "UNDECIDED.json")
+        listed = json.load(open(up)) if os.path.exists(up) else {}
+        if sid in listed:
+            return (sid, "undecided-as-listed", info)
         return (sid, "undecided", info)
     if verdict == "missed":
         return (sid, "silent", "")
